@@ -41,6 +41,7 @@ def check(ctx):
     if kn:
         R.run_jobs(kn, 'recorded-findings (key_print of permuted / derived parameters; index-array back-end with non-range parameters)', stop_on_violation=False)
     ctx.notes += R.notes
+    R.cleanup()
     return ctx.finish(RULE, ['keys are checked after a complete run of the taskpool (the min/range fields the key functions use are set by the generated internal_init tasks)',
                              'bounded ranges: no 64-bit overflow of the mixed-radix product is reachable in this box'])
 
